@@ -23,7 +23,7 @@ CHECKS = {
              "with an independent one-step call-by-value reference on merged templates (depth 2, groups <= 3) and, by path forking, on every closed "
              "hole-free term of up to 5 (quick) / 6 (thorough) nodes, where evaluate() is also compared with a big-step environment interpreter "
              "(same outcome, same ground value); plus program skeletons (recursion, mutual recursion, higher-order, nested groups) with all integer "
-             "literals symbolic. Integer operands are unbounded; z3 decides each path. Skeletons include local groups of 2-3 definitions inside recursive functions and inside functions passed to higher-order functions, and a recursive definition that uses a later sibling.",
+             "literals symbolic. Integer operands are unbounded; z3 decides each path. Skeletons include local groups of 2-3 definitions inside recursive functions and inside functions passed to higher-order functions, and a recursive definition that uses a later sibling; on the skeletons the reference interprets the program AS PARSED while the real evaluator runs the term elaborated by the compiled checker, and violations are confirmed end to end on the compiled pipeline from source text.",
         note="Trusted: executor + library models (BigInt as mathematical integers, truncating division) validated against the compiled code each run; "
              "the reference semantics; z3. Evaluation beyond the fuel bound and terms with unresolved holes are outside the claim.",
         ref="DESIGN.md 4 (C02)"),
@@ -69,14 +69,14 @@ CHECKS["C05"] = dict(
     text="Bounded symbolic verification of completeness on annotated programs: every closed hole-free program (<= 4/5 nodes; all groups of 2 and 3 leaf "
          "definitions incl. forward type aliases) that the reference checker accepts is run through the real type_check, which must terminate within fuel, "
          "accept, and report a convertible type whose normalisation terminates; and for every accepted program (holes allowed) the elaborated term equals the "
-         "source node for node. z3 decides each path; counterexamples replayed on the compiled checker. One defect found this way was repaired (fix: 32fe3ab). Plus the fully annotated interplay families of DESIGN.md 3.",
+         "source node for node. z3 decides each path; counterexamples replayed on the compiled checker. One defect found this way was repaired (fix: 32fe3ab). Plus the fully annotated interplay families of DESIGN.md 3, including a type-level function whose body is a group applied to a bound variable inside an annotation.",
     note="Trusted: executor + models, the reference checker as the definition of 'well typed' (explicit application of an implicit function is ill typed), z3.",
     ref="DESIGN.md 4 (C05)")
 CHECKS["C06"] = dict(
     text="Bounded symbolic verification of coherence between conversion and evaluation: by path forking over the real normalize_weak_head, unify, "
          "syntactically_equal, evaluate/step and type_check: accepted closed programs (<= 4/6 nodes) of type int/bool normalise to the literal they evaluate to "
          "and unify with their first three reducts; hole-free pairs (2+2 / 3+3 nodes, four contexts): unify is symmetric and agrees with equality of reference "
-         "normal forms; every hole-free term unifies with itself. z3 decides each path. Plus pairs of groups of 1 or 2 definitions of equal and different sizes, and A1 on the program skeletons of C02 (literals symbolic).",
+         "normal forms; every hole-free term unifies with itself. z3 decides each path. Plus pairs of groups of 1 or 2 definitions of equal and different sizes, A1 on the program skeletons of C02 (literals symbolic), and every arithmetic/comparison operator over variables on both sides (the structural rule on stuck operands).",
     note="Trusted: executor + models (validated against the compiled code), reference normaliser (lambda annotations ignored, division by zero stuck), z3.",
     ref="DESIGN.md 4 (C06)")
 CHECKS["C18"] = dict(
